@@ -66,6 +66,9 @@ pub struct SeqSpec {
     pub keys: Vec<K>,
     /// include the access-counting pipeline (buffers, sketch) in the canonical state
     pub canon_sketch: bool,
+    /// specification-level ghost state the oracle derives from the history; it is part of the deduplication key,
+    /// so two histories are only merged when the implementation state AND the expectations about it agree
+    pub ghost_key: Option<Arc<dyn Fn(&SeqRun) -> String + Send + Sync>>,
     pub max_states: usize,
     pub time_cap_s: f64,
 }
@@ -76,11 +79,15 @@ fn quiesce(env: &Env, shutdown_seen: bool) {
     world::wait_event("sweep_done", n);
     if !shutdown_seen {
         let cache = env.cache.clone();
-        world::wait_until(move |w| {
-            let applied: i64 = w.events.iter().filter(|e| e.kind == "batch_applied").map(|e| e.data[0]).sum();
-            let added = cache.stats_summary().get(&crate::cache::stats::StatsType::AccessAdded).unwrap_or(0) as i64;
-            applied >= added
-        });
+        world::wait_until_labelled(
+            move |w| {
+                let applied: i64 = w.events.iter().filter(|e| e.kind == "batch_applied").map(|e| e.data[0]).sum();
+                let added = cache.stats_summary().get(&crate::cache::stats::StatsType::AccessAdded).unwrap_or(0) as i64;
+                applied >= added
+            },
+            "access-batches",
+            |_| "buffers were delivered to the access-count consumer but it never applied them".to_string(),
+        );
     }
 }
 
@@ -325,7 +332,11 @@ fn run_items(spec: &SeqSpec, items: &[Vec<Op>], col: &Collector, workers: usize,
                             col2.outcome(format!("{}=>{}", c.op.short(), res_short(&c.res)));
                             col2.sample(json!({"history": run.history(), "state": run.after().brief()}), 3);
                         }
-                        let cn = canon(&run, ops.len(), &spec2.keys, spec2.canon_sketch);
+                        let mut cn = canon(&run, ops.len(), &spec2.keys, spec2.canon_sketch);
+                        if let Some(g) = &spec2.ghost_key {
+                            cn.push_str("|G:");
+                            cn.push_str(&g(&run));
+                        }
                         let present: Vec<K> = run.after_or_initial().store.iter().map(|e| e.0).collect();
                         outs2.lock().unwrap()[i] = Some(ItemOut { canon: cn, present, findings: nf, failed: false });
                     });
@@ -412,6 +423,7 @@ fn variant_from(s: &str) -> Result<ReadVariant, String> {
 pub fn op_to_json(op: &Op) -> Value {
     match op {
         Op::Put { k, w, ttl_ms } => json!({"op": "put", "k": k, "w": w, "ttl_ms": ttl_ms}),
+        Op::ProbedPut { k, w, ttl_ms } => json!({"op": "probed_put", "k": k, "w": w, "ttl_ms": ttl_ms}),
         Op::Upsert { k, value, w, ttl_ms, remove_ttl } => json!({"op": "upsert", "k": k, "value": value, "w": w, "ttl_ms": ttl_ms, "remove_ttl": remove_ttl}),
         Op::Delete { k } => json!({"op": "delete", "k": k}),
         Op::Read { k, variant } => json!({"op": "read", "k": k, "variant": variant_name(*variant)}),
@@ -436,6 +448,7 @@ pub fn op_from_json(v: &Value) -> Result<Op, String> {
     let opt_u = |n: &str| v[n].as_u64();
     Ok(match v["op"].as_str().unwrap_or("") {
         "put" => Op::Put { k: k()?, w: opt_i("w"), ttl_ms: opt_u("ttl_ms") },
+        "probed_put" => Op::ProbedPut { k: k()?, w: opt_i("w"), ttl_ms: opt_u("ttl_ms") },
         "upsert" => Op::Upsert { k: k()?, value: v["value"].as_bool().unwrap_or(false), w: opt_i("w"), ttl_ms: opt_u("ttl_ms"), remove_ttl: v["remove_ttl"].as_bool().unwrap_or(false) },
         "delete" => Op::Delete { k: k()? },
         "read" => Op::Read { k: k()?, variant: variant_from(v["variant"].as_str().unwrap_or(""))? },
